@@ -3,6 +3,7 @@ package props
 import (
 	"fmt"
 	"strings"
+	"time"
 
 	"github.com/istio-ecosystem/authservice/zzverif/ev"
 	"github.com/istio-ecosystem/authservice/zzverif/seqx"
@@ -51,8 +52,9 @@ func c01Justify(h *hSys, o *hObs) string {
 	if is.Exp.Before(o.Now) {
 		return "id-token-expired-no-successful-refresh"
 	}
-	if w.Cfg.GetAccessToken() != nil && t.AccessToken != "" && !t.AccessTokenExpiresAt.IsZero() {
-		if ai := w.IdP.Issued[t.AccessToken]; ai != nil && ai.Exp.Before(o.Now) {
+	if w.Cfg.GetAccessToken() != nil && t.AccessToken != "" {
+		// (judged by the provider's ledger when the provider announced the expiry; else by what the service noted down)
+		if ai := w.IdP.Issued[t.AccessToken]; ai != nil && ai.Exp.Before(o.Now) && (ai.Announced || !t.AccessTokenExpiresAt.IsZero()) {
 			return "access-token-expired-no-successful-refresh"
 		}
 	}
@@ -138,8 +140,7 @@ func c01Opts(tier string, spec world.Spec) hOpts {
 		{Name: "not-bearer", TokenType: "mac"},
 	}
 	o := hOpts{Spec: spec, MaxDev: 1, Faults: true, RedisFaults: spec.Store == "redis", BadIdP: bad, Logout: true, Attacker: true, Advance: true,
-		GoodIdP: []world.Answer{world.Honest, {Name: "honest-no-refresh", NoRefresh: true},
-			{Name: "honest-refresh-omits-id-token", NoIDToken: true, KeepRT: true}}, MaxSessions: 3}
+		GoodIdP: []world.Answer{world.Honest, {Name: "honest-no-refresh", NoRefresh: true}}, MaxSessions: 3}
 	if tier == "thorough" {
 		o.MaxDev = 2
 		o.Pairs = true
@@ -150,20 +151,33 @@ func c01Opts(tier string, spec world.Spec) hOpts {
 	if spec.Replicas == 2 {
 		o.Faults, o.RedisFaults, o.BadIdP, o.MaxSessions = false, false, nil, 2
 	}
+	if spec.Shapes {
+		// one session, no faults, every honest answer shape, one level deeper
+		o.Faults, o.RedisFaults, o.BadIdP, o.Attacker, o.MaxSessions, o.MaxDev, o.Pairs = false, false, nil, false, 1, 0, false
+		o.GoodIdP = []world.Answer{world.Honest, {Name: "honest-no-refresh", NoRefresh: true},
+			{Name: "honest-refresh-omits-id-token", NoIDToken: true, KeepRT: true},
+			{Name: "honest-access-token-of-3s", AccessLife: 3},
+			{Name: "honest-no-expires-in", NoExpiresIn: true},
+			{Name: "honest-azp", Azp: true}}
+	}
+
 	if spec.Abs > 0 {
 		o.Prefix = c01LoginPrefix
 		o.MaxSessions = 2
 		o.RedisFaults = false
 		o.BadIdP = o.BadIdP[:1]
+		if tier != "thorough" {
+			o.Faults = false // (environment faults on expired sessions: thorough tier)
+		}
 	}
 	return o
 }
 
 func c01Run(run *ev.Run) {
-	run.Rule = "breadth-first search over histories of requests (app/callback/logout x cookie none/each live session/stale/attacker-chosen), clock advances to and just past the earliest token expiry, provider answers (honest shapes; HTTP 500, forged signature, non-Bearer as deviations) and environment faults (every store call, token-endpoint call and key lookup of the check failing before/after effect or crashing there; pairs in thorough) on the real handler + real store; state = canonical store content + provider ledger; a class is (request kind, verdict, fault position, provider answer, session present)"
+	run.Rule = "breadth-first search over histories of requests (app/callback/logout x cookie none/each live session/stale/attacker-chosen), clock advances to and just past the earliest token expiry (by the provider's ledger and by what the service noted down), provider answers (honest shapes - with/without refresh token, refresh without id_token, access token of 3 s, no expires_in, azp - on a single session one level deeper; HTTP 500, forged signature, non-Bearer as deviations) and environment faults (every store call, token-endpoint call and key lookup of the check failing before/after effect or crashing there; pairs in thorough) on the real handler + real store; state = canonical store content + provider ledger; a class is (request kind, verdict, fault position, provider answer, session present)"
 	run.Assumptions = []string{
 		"handler-level world: Process() on a handler built per check exactly as ExtAuthZFilter.Check builds it; the filter loop itself is C08's subject",
-		"session time-outs are 0 here (session expiry is C10's subject)",
+		"session time-outs are 0 except in the two expiry specs (absolute time-out 900 s); idle time-outs and limits at the boundary are C10's subject",
 		"crash = process death: the memory store is lost, a Redis store is re-attached to the same server",
 		"values outside the alphabet are not covered",
 	}
@@ -173,33 +187,41 @@ func c01Run(run *ev.Run) {
 	}
 	var total seqx.Stats
 	for _, spec := range []world.Spec{
-		{Store: "memory", Forward: true, Logout: true},
-		{Store: "redis", Forward: true, Logout: true},
-		{Store: "memory", Forward: false, Logout: true},
+		// (the small searches first: a deadline cuts the big ones, not these)
+		// honest answer shapes (refresh without id_token, access token of 3 s, no expires_in, azp) on one session
+		{Store: "memory", Forward: true, Logout: true, Shapes: true},
+		{Store: "redis", Forward: true, Logout: true, Shapes: true},
 		// expired sessions: absolute time-out of 900 s with tokens that live 600 s, starting from a completed login
 		{Store: "memory", Forward: true, Logout: true, Abs: 900, TokenLife: 600},
 		{Store: "redis", Forward: true, Logout: true, Abs: 900, TokenLife: 600},
 		// two service replicas on one Redis server, every request served by either
 		{Store: "redis", Forward: true, Logout: true, Replicas: 2},
+		// the full fault alphabet
+		{Store: "memory", Forward: true, Logout: true},
+		{Store: "redis", Forward: true, Logout: true},
+		{Store: "memory", Forward: false, Logout: true},
 	} {
 		if spec.Store == "memory" && !spec.Forward && run.Tier != "thorough" {
 			continue
 		}
+		t0 := time.Now()
 		o := c01Opts(run.Tier, spec)
-
 		if run.Tier == "thorough" {
 			// pass 1: depth 6 with single deviations; pass 2 (below): depth 4 with pairs of deviations
 			o.MaxDev, o.Pairs = 1, false
 		}
 		m := o.model(c01Monitor(run, spec))
 		m.MaxDepth = depth
-		if run.Tier == "thorough" || (spec.Abs == 0 && spec.Replicas == 0) {
+		if spec.Shapes {
+			m.MaxDepth = depth + 1
+		}
+		if run.Tier == "thorough" || (spec.Abs == 0 && spec.Replicas == 0 && !spec.Shapes) {
 			// the two big searches fill their time budget; the merge check runs on the expiry and replica specs here, and
 			// in the thorough tier's pairs pass on all of them
 			m.CheckMerges = -1
 		}
 		st := seqx.Explore(run, m)
-		if run.Tier == "thorough" {
+		if run.Tier == "thorough" && !spec.Shapes && spec.Abs == 0 && spec.Replicas == 0 {
 			o2 := c01Opts(run.Tier, spec)
 			o2.MaxSessions = 3
 			m2 := o2.model(c01Monitor(run, spec))
@@ -221,7 +243,9 @@ func c01Run(run *ev.Run) {
 		if !st.Complete {
 			run.Cap(fmt.Sprintf("store=%s forward=%v: search stopped at depth %d of %d", spec.Store, spec.Forward, st.DepthDone, depth))
 		}
-		run.Extra[fmt.Sprintf("levels_%s_fwd=%v", spec.Store, spec.Forward)] = st.LevelSizes
+		name := fmt.Sprintf("%s_fwd=%v_abs=%d_replicas=%d_shapes=%v", spec.Store, spec.Forward, spec.Abs, spec.Replicas, spec.Shapes)
+		run.Extra["levels_"+name] = st.LevelSizes
+		run.Extra["wall_s_"+name] = int(time.Since(t0).Seconds())
 	}
 	run.States, run.Transitions, run.Traces, run.Evals = total.States, total.Transitions, total.Histories, total.Transitions
 	run.Extra["replayed_events"] = total.Replayed
